@@ -61,6 +61,7 @@ def gen_plan(base_seed, i, tier):
                 "reaction_col": (rng.choice(["reaction", "rxn"]) if s > 0 else "reaction") if two_cols else "reaction",
                 "threshold_via": rng.choice(["ctor", "ctor", "assign"]),
                 "remove_aam": rng.choice([True, True, True, False]),
+                "extra_columns": rng.choice([None, None, None, ["id"], ["mcs", "carbon_balance_check"], ["reactants", "products"]]),
             },
             "sched_seed": rng.getrandbits(40),
         }
@@ -105,7 +106,10 @@ def _run(rows, config, sched_seed, cache, **simkw):
     if assign:
         cfg["assign"] = assign
     source = "dict" if rows and isinstance(rows[0], dict) else "list"
-    return runner.run_once({"rows": rows, "source": source, "config": cfg, "sim": sim})
+    spec = {"rows": rows, "source": source, "config": cfg, "sim": sim}
+    if config.get("extra_columns"):
+        spec["extra_columns"] = config["extra_columns"]  # Balancer.columns is public, mutable configuration
+    return runner.run_once(spec)
 
 
 def uncached(rows, config, sched_seed):
@@ -136,6 +140,10 @@ def compare(res, ref, where):
         if diff:
             vs.append(oracles.V("C12", "row_differs_from_uncached", ",".join(diff), "%s: row %d (%s) differs from the uncached run in %s: cached=%r uncached=%r" % (where, k, b["input_reaction"], diff, {c: a[c] for c in diff}, {c: b[c] for c in diff})))
             break
+    if res.get("extra") != ref.get("extra"):
+        ea, eb = res.get("extra") or [], ref.get("extra") or []
+        k = next((i for i, (x, y) in enumerate(zip(ea, eb)) if x != y), 0)
+        vs.append(oracles.V("C12", "selected_columns_differ_from_uncached", "columns", "%s: additionally selected columns of row %d differ: cached=%r uncached=%r" % (where, k, str(ea[k] if k < len(ea) else None)[:200], str(eb[k] if k < len(eb) else None)[:200])))
     if (res["stats"] or {}) != (ref["stats"] or {}):
         vs.append(oracles.V("C12", "stats_differ_from_uncached", "stats", "%s: stats %r != uncached %r" % (where, res["stats"], ref["stats"])))
     return vs
